@@ -313,6 +313,7 @@ func actNewIkeSA(e *Env, a J) J {
 	obs["faultok"] = r == nil || !(r.failAt >= 0 && r.reads > r.failAt) || (err != nil && k == nil && pub == nil)
 	if err == nil && k != nil {
 		obs["pub"] = octOf(pub)
+		obs["publen"] = len(pub)
 		obs["repeat"] = seenPub(e, pub)
 		keyObs(k, a, obs)
 		registerSA(e, gs(a, "name"), k, gj(a, "suite"))
